@@ -199,6 +199,7 @@ fn dealing(rec: &mut Rec, ctx: &Ctx, idx: u64, rng: &mut ChaCha20Rng) {
   let draws = replay_draws(&dealer_rng.log);
   let need = k * (t as usize - 1);
   rec.case(&("deal", t.min(50), k, adversarial, tail > 0));
+  rec.case(&("dealing", idx));
 
   // shares: iterator (first) and random points (second recording RNG)
   let n_iter = (t as usize) + rng.gen_range(0..=3).min(t as usize);
